@@ -596,7 +596,7 @@ func (f *OrefaFile) Truncate(size int64) error {
 		return &fs.PathError{Op: op, Path: f.name, Err: err}
 	}
 
-	if size < 0 {
+	if size < 0 || size > maxFileSize {
 		return &fs.PathError{Op: op, Path: f.name, Err: f.vfs.err.InvalidArgument}
 	}
 
@@ -660,6 +660,12 @@ func (f *OrefaFile) Write(b []byte) (n int, err error) {
 	// In append mode every write lands at the current end of the file.
 	if f.openMode&avfs.OpenAppend != 0 {
 		f.at = int64(len(nd.data))
+	}
+
+	if f.at > maxFileSize-int64(len(b)) {
+		nd.mu.Unlock()
+
+		return 0, &fs.PathError{Op: op, Path: f.name, Err: f.vfs.err.InvalidArgument}
 	}
 
 	// Writing beyond the end of the file leaves a zero-filled gap.
@@ -729,6 +735,10 @@ func (f *OrefaFile) WriteAt(b []byte, off int64) (n int, err error) {
 		}
 
 		return 0, &fs.PathError{Op: op, Path: f.name, Err: err}
+	}
+
+	if off > maxFileSize-int64(len(b)) {
+		return 0, &fs.PathError{Op: "writeat", Path: f.name, Err: f.vfs.err.InvalidArgument}
 	}
 
 	nd.mu.Lock()
